@@ -39,6 +39,7 @@ class ResponseHandler(BaseProtocol, DataQueue[tuple[RawResponseMessage, StreamRe
         self._should_close = False
 
         self._payload: _Payload | None = None
+        self._interim = False
         self._skip_payload = False
         self._payload_parser: WebSocketReader | None = None
         self._data_received_cb: Callable[[], None] | None = None
@@ -266,6 +267,7 @@ class ResponseHandler(BaseProtocol, DataQueue[tuple[RawResponseMessage, StreamRe
         self._idle = False
         # a new exchange starts: the payload of the previous one is history
         self._payload = None
+        self._interim = False
 
         self._read_timeout = read_timeout
 
@@ -308,7 +310,12 @@ class ResponseHandler(BaseProtocol, DataQueue[tuple[RawResponseMessage, StreamRe
 
     def start_timeout(self) -> None:
         payload = self._payload
-        if payload is not None and self._payload_parser is None and payload.is_eof():
+        if (
+            payload is not None
+            and self._payload_parser is None
+            and payload.is_eof()
+            and not self._interim
+        ):
             # The response to this request has already been received completely
             # (it arrived before the request body was sent): nothing more is
             # expected to be read, a timer armed now would fire on the idle
@@ -394,6 +401,9 @@ class ResponseHandler(BaseProtocol, DataQueue[tuple[RawResponseMessage, StreamRe
                 self._should_close = True
 
             self._payload = payload
+            # an interim response (100 Continue, 103 ...) is not the response
+            # to the request: the final one is still to be read
+            self._interim = 100 <= message.code < 200 and message.code != 101
 
             if self._skip_payload or message.code in EMPTY_BODY_STATUS_CODES:
                 self.feed_data((message, EMPTY_PAYLOAD))
